@@ -63,8 +63,13 @@ pub struct Shape {
 
 #[derive(Clone, Copy, Debug, Serialize, Deserialize, PartialEq, Eq, Hash)]
 pub enum Encoding {
-    /// JSON snapshot; `read_group_size` is the reader's group size (`None` = default = one group).
-    Json { read_group_size: Option<usize> },
+    /// JSON snapshot; `write_group_size` is the exporter's group size (`None` = CLI default =
+    /// one group per table), `read_group_size` the reader's (`None` = default = one group).
+    Json {
+        #[serde(default)]
+        write_group_size: Option<usize>,
+        read_group_size: Option<usize>,
+    },
     /// Parquet snapshot; `group_size` is the exporter's group size (`None` = CLI default 10000).
     Parquet { group_size: Option<usize> },
 }
@@ -199,7 +204,7 @@ pub const DEFAULT_PARQUET_GROUP_SIZE: usize = 10000;
 pub fn export(rt: &tokio::runtime::Runtime, db: &CombinedDatabase, dir: &Path, enc: Encoding) -> anyhow::Result<()> {
     let out = dir.to_path_buf();
     let group_size = match enc {
-        Encoding::Json { .. } => MAX_GROUP_SIZE,
+        Encoding::Json { write_group_size, .. } => write_group_size.unwrap_or(MAX_GROUP_SIZE),
         Encoding::Parquet { group_size } => group_size.unwrap_or(DEFAULT_PARQUET_GROUP_SIZE),
     };
     let writer = move || match enc {
@@ -214,7 +219,7 @@ pub fn export(rt: &tokio::runtime::Runtime, db: &CombinedDatabase, dir: &Path, e
 pub fn open_snapshot(dir: &Path, enc: Encoding) -> anyhow::Result<Config> {
     let meta = SnapshotMetadata::read(dir)?;
     let reader = match enc {
-        Encoding::Json { read_group_size: Some(g) } => SnapshotReader::open_w_config(meta, g)?,
+        Encoding::Json { read_group_size: Some(g), .. } => SnapshotReader::open_w_config(meta, g)?,
         _ => SnapshotReader::open(meta)?,
     };
     Ok(Config::local_node_with_reader(reader))
